@@ -963,10 +963,11 @@ def session_needs_no_database(case):
     """True when nothing in the in-session script needs the database (objects are created and changed in memory
     only, so no connection is ever opened) and the session does not commit"""
     m = Model(case['diagram'], case['data'])
-    for act in case['prep']:
+    prep, end = effective_script(case)
+    for act in prep:
         if not m.apply(act):
             return False
-    return m.only_creates and case['end'] in ('rollback', 'exception')
+    return m.only_creates and end in ('rollback', 'exception')
 
 
 # ------------------------------------------------------------------------------------------------
@@ -990,6 +991,8 @@ def resolve(objs, v):
         return objs[h]
     if isinstance(v, list):
         return [resolve(objs, x) for x in v]
+    if isinstance(v, dict):
+        return {k: resolve(objs, x) for k, x in v.items()}
     return v
 
 
@@ -1007,8 +1010,8 @@ def run_session(env, case, objs):
     ents = env.ents
     prep, end, strict = case['prep'], case['end'], case['strict']
 
-    def body():
-        for act in prep:
+    def run_actions(acts):
+        for act in acts:
             k = act[0]
             if k == 'get':
                 e, pk = act[1], _pkval(act[2])
@@ -1063,6 +1066,8 @@ def run_session(env, case, objs):
                 orm.commit()
             else:
                 raise HarnessError('unknown action %r' % (act,))
+
+    def finish_body():
         if end == 'rollback':
             orm.rollback()
         elif end == 'exception':
@@ -1071,25 +1076,101 @@ def run_session(env, case, objs):
             orm.commit()
             raise Boom()
 
+    def body():
+        run_actions(prep)
+        finish_body()
+
+    form = case.get('form', 'with')
+    gen_end = case.get('gen', 'exhaust') if form == 'generator' else None
+    nread = 0
+    while nread < len(prep) and prep[nread][0] in READ_ACTIONS:
+        nread += 1
+
+    def genbody():
+        # a @db_session generator: suspended once after the read-only prefix of the script ...
+        run_actions(prep[:nread])
+        yield 'mid'
+        run_actions(prep[nread:])
+        if gen_end == 'exhaust':
+            finish_body()       # ... and then run to its end
+            return
+        orm.commit()            # a generator may only be suspended with nothing uncommitted
+        yield 'end'             # ... or left suspended here and ended from outside
+        raise HarnessError('the generator was resumed after its last yield')
+
+    def drive_generator():
+        import gc
+        g = orm.db_session(strict=strict)(genbody)()
+        if gen_end == 'exhaust':
+            for mark in g:
+                pass
+            return
+        if gen_end == 'break':
+            for mark in g:
+                if mark == 'end':
+                    break
+            else:
+                raise HarnessError('the generator never reached its last yield')
+            del g
+            gc.collect()
+            return
+        if [next(g), next(g)] != ['mid', 'end']:
+            raise HarnessError('unexpected yields')
+        if gen_end == 'close':
+            g.close()
+        elif gen_end == 'throw_exc':
+            try:
+                g.throw(Boom())
+            except Boom:
+                pass
+            else:
+                raise HarnessError('the exception thrown into the generator did not come out')
+        elif gen_end in ('throw_exit', 'throw_kbd'):
+            exc = GeneratorExit if gen_end == 'throw_exit' else KeyboardInterrupt
+            try:
+                g.throw(exc())
+            except exc:
+                pass
+            except StopIteration:
+                pass
+            else:
+                raise HarnessError('%s thrown into the generator was swallowed' % exc.__name__)
+        else:
+            raise HarnessError('unknown generator ending %r' % (gen_end,))
+
     rej = pony_rejections()
+    expect_boom = end in ('exception', 'commit_exception') and gen_end in (None, 'exhaust')
     try:
-        if case.get('form', 'with') == 'decorator':
+        if form == 'generator':
+            drive_generator()
+        elif form == 'decorator':
             orm.db_session(strict=strict)(body)()
         else:
             with orm.db_session(strict=strict):
                 body()
     except Boom:
-        if end not in ('exception', 'commit_exception'):
+        if not expect_boom:
             raise HarnessError('Boom out of a session that should not raise')
     except rej as e:
         raise Rejected('%s: %s' % (type(e).__name__, e))
     except HarnessError:
         raise
     except Exception as e:
+        from pony.orm import core
+        if isinstance(e, core.TransactionError) and 'before suspending the generator' in str(e):
+            raise Rejected('%s: %s' % (type(e).__name__, e))
         raise InSessionError('%s: %s' % (type(e).__name__, e))
     else:
-        if end in ('exception', 'commit_exception'):
+        if expect_boom:
             raise HarnessError('the exception did not come out of the db_session')
+
+
+def effective_script(case):
+    """(script, end) as the reference model sees them: a generator that is ended from outside while suspended has
+    committed everything before its last yield, and its session is then closed with a rollback of nothing"""
+    if case.get('form') == 'generator' and case.get('gen', 'exhaust') != 'exhaust':
+        return list(case['prep']) + [['commit']], 'rollback'
+    return case['prep'], case['end']
 
 
 # ------------------------------------------------------------------------------------------------
@@ -1856,10 +1937,11 @@ def prepare(env, case):
     """restore data, run the session, build the oracle.  -> Prepared (or raises Rejected)"""
     restore_data(env)
     model = Model(case['diagram'], case['data'])
-    for act in case['prep']:
+    eprep, eend = effective_script(case)
+    for act in eprep:
         if not model.apply(act):
             raise HarnessError('script step %r is not valid here' % (act,))
-    model.finish(case['end'])
+    model.finish(eend)
     s0 = raw_state(env)
     objs = {}
     run_session(env, case, objs)
